@@ -1,5 +1,15 @@
 PENDING = "check not built yet in this round (planned in DESIGN.md §2); not claimed until its rules run clean on the unchanged tree"
 CHECKS = {
+ "C16": {
+  "text": "Static analysis of the establisher: establish is reached only over validate's success edge; every write validate can make carries client.DryRunAll and none of establish's does; create calls are control-dependent on control==true and the not-found edge; the inactive path adds only a plain owner reference; ReleaseObjects only clears the controller flag. Decides the code shape that makes all-or-nothing and role-respect possible, not the runtime outcome of the two phases.",
+  "note": "Assumes DryRunAll writes have no side effect and a dry-run accepted by the API server predicts the real write. Not decided: atomicity across API calls in the second phase, owner-reference histories across upgrade/rollback sequences.",
+  "technique": "static analysis: gate-crossing reachability on go/ssa CFG, option provenance (DryRunAll, ptr.To(false)), who-may-call inventory for client.Create",
+ },
+ "C18": {
+  "text": "Static analysis of the RBAC manager: no role Apply without an acknowledged validation and the empty-rejected edge; family merge only on Differs==false and Differs fails closed; permission requests flow only into the system role; the baseline literal is within the stated set; every PolicyRule literal is built from CRD references / XRD names plus constant suffixes; the allow tree answers true only through segment-or-wildcard children and every expanded request is checked. Decides rule provenance and gating, not the agreement of the tree with Kubernetes' covers relation.",
+  "note": "Assumes rbacv1.PolicyRule semantics and that the Applicator enforces MustBeControllableBy. Not decided: the allow tree versus Kubernetes' own rule-covering relation for all rule pairs, registry reference parsing semantics.",
+  "technique": "static analysis: gate-crossing reachability on go/ssa CFG, SSA provenance of PolicyRule literals, constant-table inclusion, loop-exit analysis",
+ },
  "C08": {
   "text": "Static typestate analysis over every CFG path of the five teardown reconcilers and engine.Stop: finalizer removal, CRD delete and controller stop are each gated by the success edges / guards the dependency order needs. Decides the ordering discipline inside one reconcile, not the cross-controller interleavings.",
   "note": "Assumes API calls are atomic and acknowledged deletes take effect; interface calls resolve to the production implementations. Not decided: joint ordering across controllers and Kubernetes GC, third-party finalizer removal, multi-reconcile fault sequences.",
